@@ -68,6 +68,13 @@ Definition shell_value_truth (val : node) : bool :=
     end
   else if is_cls "List" val then nonempty (field_list "elts" val)
   else if is_cls "Dict" val then nonempty (field_list "keys" val)
+  else if is_cls "Tuple" val || is_cls "Set" val then nonempty (field_list "elts" val)
+  else if is_Str val || is_Bytes val then
+    match const_of val with
+    | Some (CStr s) => nonempty s
+    | Some (CBytes b) => nonempty b
+    | _ => true
+    end
   else if is_cls "Name" val && mem_pstr (name_id val) [s2p "False"; s2p "None"] then false
   else if is_NameConstant val then
     match const_of val with
@@ -296,17 +303,12 @@ Definition vulnerable_funcs : list pstr := [s2p "chown"; s2p "chmod"; s2p "tar";
 Definition wildcard_hit (s : pstr) : bool :=
   nonempty s && existsb (fun f => contains s f && contains s (s2p "*")) vulnerable_funcs.
 
-(* context.check_call_arg_value("shell", "True") as a truth value *)
-Definition shell_is_True (c : ctx) : res bool :=
-  do r <- check_call_arg_value c kw_shell [PStr (s2p "True")];;
-  Ok (match r with Some true => true | _ => false end).
-
-(* name in config["shell"] or (name in config["subprocess"] and check_call_arg_value(...)) *)
+(* name in config["shell"] or (name in config["subprocess"] and injection_shell.has_shell(context)) *)
 Definition b609_applies (cfg : jv) (c : ctx) : res bool :=
   do a <- in_section sec_shell cfg c;;
   if a then Ok true else
   do b <- in_section sec_subprocess cfg c;;
-  if b then shell_is_True c else Ok false.
+  if b then has_shell c else Ok false.
 
 (* "shell" in config and "subprocess" in config *)
 Definition b609_cfg_ok (cfg : jv) : res bool :=
